@@ -614,27 +614,43 @@ def r_quad(chk, units):
             want_n, T = int(m.group(1)), m.group(2).strip()
             n_inst += 1
             rules = []
-            for n in f.all_nodes():
-                ci = call_info(u, n) if n["k"] in CALL_KINDS else None
-                if ci is None or ci.decl is None:
-                    continue
-                rq = ci.decl.get("recqn", "")
-                g = re.match(r"boost::math::quadrature::gauss(?:_kronrod)?<(.+), (\d+)U?L?(?:, .*)?>$", rq)
-                if g and ci.decl["name"] == "integrate":
-                    rules.append((g.group(1).strip(), int(g.group(2)), n))
+            # the rule may be applied in a lambda written inside integrate() or in a library helper it calls (summation
+            # helpers taking a per-interval callable): follow the resolved call closure within the repository
+            todo, seen_fn = [f], {f.id}
+            while todo:
+                g_ = todo.pop()
+                for n in g_.all_nodes():
+                    if n["k"] == "LambdaExpr" and n.get("callop") is not None:
+                        lf = u.by_id.get(n["callop"])
+                        if lf is not None and lf.id not in seen_fn:
+                            seen_fn.add(lf.id)
+                            todo.append(lf)
+                    ci = call_info(u, n) if n["k"] in CALL_KINDS else None
+                    if ci is None or ci.decl is None:
+                        continue
+                    rq = ci.decl.get("recqn", "")
+                    g = re.match(r"boost::math::quadrature::gauss(?:_kronrod)?<(.+), (\d+)U?L?(?:, .*)?>$", rq)
+                    if g and ci.decl["name"] == "integrate":
+                        rules.append((g.group(1).strip(), int(g.group(2)), n if g_ is f else None))
+                        continue
+                    callee = u.func_of(ci.decl["id"]) if hasattr(u, "func_of") else None
+                    if callee is not None and not callee.dependent and callee.in_lib() and callee.id not in seen_fn \
+                            and len(seen_fn) < 40:
+                        seen_fn.add(callee.id)
+                        todo.append(callee)
             if not rules:
                 raise AnalysisBroken("anchor vanished: %s applies no boost Gauss rule" % f.qn[:100])
             bad = False
             for (gt, gn, node) in rules:
                 if gn < want_n:
                     bad = True
-                    chk.bad(rule, f.loc(node), f.pqn, "rule-size:%d<%d" % (gn, want_n),
+                    chk.bad(rule, f.loc(node) if node is not None else f.where(), f.pqn, "rule-size:%d<%d" % (gn, want_n),
                             "integrate<%d> applies a %d-point Gauss-Legendre rule: the documented exactness (weight * "
                             "product of degree <= %d) needs at least the %d points that were asked for" % (
                                 want_n, gn, 2 * want_n - 1, want_n), witness=dict(instantiation=f.qn, unit=u.name))
                 if gt != T:
                     bad = True
-                    chk.bad(rule, f.loc(node), f.pqn, "rule-type:%s" % gt,
+                    chk.bad(rule, f.loc(node) if node is not None else f.where(), f.pqn, "rule-type:%s" % gt,
                             "the Gauss rule is instantiated for %s, not for the scalar type %s of the splines" % (gt, T),
                             witness=dict(instantiation=f.qn, unit=u.name))
             rt = f.decl.get("rtype", "")
